@@ -907,8 +907,10 @@ func c12Search() {
 			for i := 1; i < len(sc.Tasks); i++ {
 				sc.Tasks[i] = sc.Tasks[0]
 			}
+			// (fine-grained switching through most of the run, not only at its start:
+			// the window of a first-use initialisation may open late, at the first print)
 			for i := range sc.Tape.Gaps {
-				if i < 64 {
+				if i < 64 || (i < 1536 && idx%2 == 0) {
 					sc.Tape.Gaps[i] = uint32(1 + (int(sc.Tape.Gaps[i]) % 40))
 				}
 			}
